@@ -1,0 +1,11 @@
+//go:build verif
+
+package rdb
+
+// VerifSetMaxBinEntryBuffer lowers (or restores) the value-chunking threshold so that
+// split values can be explored with small snapshots.  It returns the previous value.
+func VerifSetMaxBinEntryBuffer(n int) int {
+	old := maxBinEntryBuffer
+	maxBinEntryBuffer = n
+	return old
+}
